@@ -97,3 +97,29 @@ impl Deque {
         }
     }
 }
+
+#[cfg(feature = "verif-hooks")]
+impl<T> Buffer<T> {
+    /// Number of occupied slots (verification hook, read-only).
+    pub fn verif_len(&self) -> usize {
+        self.slab.len()
+    }
+}
+
+#[cfg(feature = "verif-hooks")]
+impl Deque {
+    /// Number of frames in this deque (verification hook, read-only).
+    pub fn verif_len<T>(&self, buf: &Buffer<T>) -> usize {
+        let mut n = 0;
+        let mut cur = self.indices.map(|i| i.head);
+        let tail = self.indices.map(|i| i.tail);
+        while let Some(k) = cur {
+            n += 1;
+            if Some(k) == tail || n > 1_000_000 {
+                break;
+            }
+            cur = buf.slab.get(k).and_then(|s| s.next);
+        }
+        n
+    }
+}
